@@ -276,7 +276,8 @@ Print Assumptions label_document_before_fix_exact.
 (* (b) Every acknowledged sample has a successfully inserted series row of its own day AND sample type
    (the read side selects series rows with type IN (t, 0)), in EVERY history: any streams and mixtures of
    log lines and metric values, any outcomes of the series and the samples insert of every push, client
-   retries, bodies that turn out malformed after some streams (400), cache resets at any point, and pushes
+   retries, bodies that turn out malformed after some streams (400), cache resets and evictions of single cache entries at any
+   point, requests above 1 MiB sent in several chunks with independent insert outcomes per chunk (More / Flush), and pushes
    that overlap (Begin parses a body against the cache as it is; End k completes the k-th request in flight).
    No guard. Holds of the code after the fix recorded in findings.d/C04.txt: the cache is only read while
    parsing and written by ConfirmSeries after every insert of the request has succeeded.
